@@ -250,6 +250,81 @@ def lower_params(params, unit):
     return ", ".join(out), refs
 
 
+def _split_top(sx):
+    parts, depth, cur = [], 0, ""
+    for ch in sx:
+        if ch in "([":
+            depth += 1
+        elif ch in ")]":
+            depth -= 1
+        if ch == "," and depth == 0:
+            parts.append(cur.strip()); cur = ""
+        else:
+            cur += ch
+    if cur.strip():
+        parts.append(cur.strip())
+    return parts
+
+
+def _clauses(contract, kw):
+    """yield the argument text of every __CPROVER_<kw>( ... ) clause of a contract"""
+    m = _mask_noncode(contract)
+    for mo in re.finditer(r"__CPROVER_%s\s*\(" % kw, m):
+        op = mo.end() - 1
+        cp = _scan(m, op, "(", ")")
+        yield contract[op + 1:cp]
+
+
+def make_stub(sig, rtype, contract, unit):
+    """contract text -> C function with the same signature: assert requires; snapshot old(); havoc assigns; assume ensures."""
+    olds = []
+
+    def old_repl(expr_text):
+        out, i = "", 0
+        while True:
+            j = expr_text.find("__CPROVER_old(", i)
+            if j < 0:
+                return out + expr_text[i:]
+            op = j + len("__CPROVER_old")
+            cp = _scan(expr_text, op, "(", ")")
+            inner = expr_text[op + 1:cp]
+            if inner not in olds:
+                olds.append(inner)
+            out += expr_text[i:j] + "__old%d" % olds.index(inner)
+            i = cp + 1
+    reqs = [r.replace("__CPROVER_is_fresh(", "__CPROVER_r_ok(") for r in _clauses(contract, "requires")]
+    enss = [old_repl(e).replace("__CPROVER_return_value", "__ret") for e in _clauses(contract, "ensures")]
+    asg = []
+    for a in _clauses(contract, "assigns"):
+        asg += _split_top(a)
+    if any("__CPROVER_is_fresh" in e for e in enss):
+        raise SliceError("%s: stub generation does not support is_fresh in ensures" % unit)
+    lines = [sig, "{"]
+    for k, r in enumerate(reqs):
+        lines.append('  __CPROVER_assert(%s, "precondition %d of %s (contract clause, checked at the call site)");' % (" ".join(r.split()), k + 1, unit))
+    for k, o in enumerate(olds):
+        lines.append("  __typeof__(%s) __old%d = %s;" % (o, k, o))
+    for a in asg:
+        mo = re.match(r"__CPROVER_object_(whole|upto|from)\((.*)\)$", a, re.S)
+        if mo and mo.group(1) == "whole":
+            lines.append("  __CPROVER_havoc_object((void *)(%s));" % mo.group(2))
+        elif mo and mo.group(1) == "upto":
+            ptr, n = _split_top(mo.group(2))
+            lines.append("  __CPROVER_havoc_slice((void *)(%s), %s);" % (ptr, n))
+        elif mo:
+            lines.append("  __CPROVER_havoc_slice((void *)(%s), __CPROVER_OBJECT_SIZE(%s) - __CPROVER_POINTER_OFFSET(%s));" % (mo.group(2), mo.group(2), mo.group(2)))
+        elif a:
+            lines.append("  __CPROVER_havoc_slice((void *)&(%s), sizeof(%s));" % (a, a))
+    if rtype and rtype != "void":
+        lines.append("  %s __ret; __CPROVER_havoc_slice((void *)&__ret, sizeof(__ret));" % rtype)
+    for e in enss:
+        lines.append("  __CPROVER_assume(%s);" % " ".join(e.split()))
+    if rtype and rtype != "void":
+        lines.append("  return __ret;")
+    lines.append("}")
+    return "\n".join(lines)
+
+
 def slice_unit(name, u, outdir, manifest):
     path = u["file"]
     src = read(path)
@@ -349,7 +424,7 @@ def slice_unit(name, u, outdir, manifest):
                 decl = " ".join("%s %s__e%d = %s;" % (t, v, k, v) for v, t in rb[k]) + " "
                 body = body[:kwstart] + decl + body[kwstart:]
         body = apply_rules(body, rules, fired)
-        sig = apply_rules("%s %s(%s)" % (rtype, cname, cparams), DEFAULT_RULES, {})
+        sig = apply_rules("%s %s(%s)" % (rtype, cname, cparams), DEFAULT_RULES + list(u.get("sig_rules", [])), {})
         defs, undefs = [], []
         for k, v in u.get("tparams", {}).items():
             defs.append("#define %s %s" % (k, v))
@@ -379,18 +454,28 @@ def slice_unit(name, u, outdir, manifest):
         # contract-bearing forward declaration (written against the un-macro'd names)
         if u.get("contract"):
             text += "%s\n%s\n;\n" % (sig, u["contract"].strip())
+        # -DSTUB_<cname>: the function becomes its own contract in executable form (precondition asserted, frame havocked,
+        # postcondition assumed) — generated mechanically from the SAME contract text that is enforced on the real body in its
+        # own job; used by bounded driver jobs that run plain CBMC instead of goto-instrument's call replacement.
+        # (emitted before the member/reference macros, like the contract itself)
+        if u.get("contract"):
+            text += "#ifdef STUB_%s\n%s\n#endif\n" % (cname, make_stub(sig, rtype, u["contract"], name))
         text += "\n".join(defs) + ("\n" if defs else "")
         # named check classes switched off inside this one function (an *observation*, see DESIGN
         # section 3); a job compiled with -DOBSERVE_ALL keeps them on and reports what they flag
         cd = u.get("check_disable", [])
         if cd:
             text += "#ifndef OBSERVE_ALL\n#pragma CPROVER check push\n" + "".join('#pragma CPROVER check disable "%s"\n' % c for c in cd) + "#endif\n"
+        if u.get("contract"):
+            text += "#ifndef STUB_%s\n" % cname
         # -DCONTRACT_ONLY_<cname>: keep only the contract-bearing declaration (for jobs that replace every call of
         # this function by its contract and must not link its body, e.g. because of CBMC limitations)
         text += "#ifndef CONTRACT_ONLY_%s\n" % cname
         text += "#line %d \"%s\"\n" % (line, os.path.join(REPO, path))
         text += "%s\n%s\n" % (sig, body)
         text += "#endif\n"
+        if u.get("contract"):
+            text += "#endif\n"
         if cd:
             text += "#ifndef OBSERVE_ALL\n#pragma CPROVER check pop\n#endif\n"
         text += "\n".join(undefs) + ("\n" if undefs else "")
